@@ -1283,7 +1283,7 @@ func c20(c *core.Ctx, r *core.Report) {
 	c20LoggerPure(c, r)
 	// R5b: the singleton registry is built on the concurrent set, the registries on sync2.Map
 	concSet := c.Func("util/list", "NewConcurrentSets")
-	for _, T := range c.Implementors(c.Iface("container", "SingletonComponentRegistry")) {
+	for _, T := range implementorsBehindFacades(c, "container", "SingletonComponentRegistry") {
 		// the types of the registry's package that keep plain maps behind a lock of their own count as concurrent
 		if pk := c.ByPath[T.Obj().Pkg().Path()]; pk != nil {
 			sc := pk.Types.Scope()
